@@ -574,6 +574,47 @@ func c08InternalExits(w *core.WorkerCtx) {
 	}
 }
 
+// c08HeavyVertex: a correctly sealed gossiped vertex that claims a far-out weight on a young ledger makes the node's
+// own truncation loop attempt a truncation that cannot find a cut; every later operation must still complete.
+func c08HeavyVertex(w *core.WorkerCtx) {
+	rng := core.Rand(w.Seed, "C08h", w.Batch)
+	desc := fmt.Sprintf("c08 heavy vertex on a young ledger (Config.Truncate=2000) seed=%d batch=%d", w.Seed, w.Batch)
+	w.Mark("%s", desc)
+	world := ledger.NewWorld(rng, w.R, []string{"C08"}, 0, desc)
+	world.TruncateAt = 2000
+	_, err := ledger.Setup(world, ledger.Profile{Nodes: 1, Users: 4, SupplyClass: 0, Delivery: "lockstep"})
+	if err != nil {
+		w.R.Inconc("setup failed: " + err.Error())
+		return
+	}
+	e := &c08env{w: w, world: world, n: world.Nodes[0]}
+	for i := 0; i < 20 && !e.dead; i++ {
+		e.grow(false)
+	}
+	tip, _ := e.tipAndAncestors()
+	t := world.NewTrx(world.Users[0], world.Users[1].Addr, spice.Melange{SupplementaryCurrency: 3}, nil)
+	hv := ledger.ForgeVertex(world.Sealers[0], t, tip, tip, 3600, world.Now())
+	var herr error
+	e.watch("AddLeaf of a heavy vertex", func() { herr = e.n.Book.AddLeaf(context.Background(), ledger.CloneVertex(&hv)) })
+	world.Logf("heavy vertex (weight 3600 on a ledger of 20) => %v", herr)
+	done := 0
+	for i := 0; i < 130 && !e.dead; i++ {
+		if e.grow(false) {
+			done++
+		}
+	}
+	if !e.dead {
+		e.watch("CalculateBalance after the heavy vertex", func() { e.n.Book.CalculateBalance(context.Background(), world.Users[1].Addr) })
+	}
+	w.R.Eval(1)
+	w.R.Count("c08_heavy_vertex_followup_writes", done)
+	w.R.Nontriv(fmt.Sprintf("heavy-vertex/accepted=%v/wedged=%v", herr == nil, e.dead))
+	w.R.Sample(10, map[string]any{"case": desc, "heavy_vertex_accepted": herr == nil, "follow_up_writes_completed": done, "wedged": e.dead})
+	if !e.dead {
+		world.Close()
+	}
+}
+
 // c08AsyncCancel cancels real contexts from a timer goroutine at PRNG moments while operations run on a larger ledger.
 func c08AsyncCancel(w *core.WorkerCtx) {
 	rng := core.Rand(w.Seed, "C08a", w.Batch)
@@ -623,6 +664,7 @@ func c08Worker(w *core.WorkerCtx) {
 		c08Streams(w)
 	case 3:
 		c08InternalExits(w)
+		c08HeavyVertex(w)
 		c08AsyncCancel(w)
 	}
 }
